@@ -5,7 +5,7 @@ from lib import vlib
 
 CFG = """SPECIFICATION Spec
 CONSTANTS
-  Types = {"command", "script", "wait", "waiter", "block", "input", "manual", "trigger", "group", "", "Command", "WAIT", "steps", "commands", "unknown", "block "}
+  Types = {"command", "script", "wait", "waiter", "block", "input", "manual", "trigger", "group", "", "Command", "WAIT", "steps", "commands", "plugins", "unknown", "block "}
   Extras = %s
   Scalars = {"wait", "waiter", "block", "input", "manual", "", "Wait", "WAIT", "waits", "command", "trigger", "group", "wait ", " block", "null", "true", "1"}
   DoExport = TRUE
@@ -34,7 +34,7 @@ def run(ctx, replay):
         vlib.replay_main(ctx, replay, "c15", "Trace_Steps")
         return {}, ASSUMPTIONS
     thorough = ctx.tier == "thorough"
-    extras = '{"<none>", "zzz", "", "Command", "waits", "steps", "label", "key"}' if thorough else '{"<none>", "zzz", "", "Command"}'
+    extras = '{"<none>", "zzz", "", "Command", "waits", "steps", "label", "key", "commander", "wait_for", "commands_dir", "groups", "trigger_x"}' if thorough else '{"<none>", "zzz", "", "Command", "commander", "wait_for"}'
     a = ctx.tlc_model("MC_Steps", None, cfg_text=CFG % extras, label="MC_Steps table", workers=8, timeout=1200)
     cases = vlib.export_cases(a)
     if len(cases) != a.distinct:
